@@ -157,12 +157,35 @@ def make_suites(prop: str, focuses: list[tuple[str, int, int]], rule: str):
     return [suite_corpus, suite_random]
 
 
+def suite_fakes(ctx: Ctx) -> SuiteResult:
+    """The deterministic scheduler's fake Event / Lock / Thread / ThreadPoolExecutor against the real ones."""
+    import fakecheck
+    res = SuiteResult("fake-primitives-vs-real-threading",
+                      rule="8 small multi-thread programs around the semantics the handshake relies on (notified "
+                           "waiter returns True after clear, wait on a set flag, clear/set races, lock hand-over, "
+                           "try-lock, exception in a Thread, Future.result re-raising, executor exit joining): "
+                           "every schedule of the fakes enumerated (S_fake), real threads with random real delays "
+                           "and real time-outs (S_real); required S_real within S_fake; non-trivial = all")
+    r = fakecheck.check(reps=ctx.n(6, 60), seed=ctx.seed)
+    res.evaluations = r["fake_runs"] + r["real_runs"]
+    for rep in r["report"]:
+        res.nontrivial.add(rep["program"])
+        res.hit(f"{rep['program']}:fake={rep['fake_outcomes']},real={rep['real_outcomes']}")
+    for pb in r["problems"]:
+        if "('hung',)" in pb:
+            res.hit("real-run-hung(inconclusive)")
+            continue
+        res.disagreements.append(Disagreement(res.name, pb, {"fakecheck": True}))
+    res.sample(r["report"][0])
+    return res
+
+
 def make_search(prop: str, focuses: list[str]):
     from sysgen import gen_scenario
 
     def search(ctx: Ctx, disagreements, broken):
         res = SuiteResult("search")
-        jobs = [(d.case["scenario"], d.case.get("schedule"), 0) for d in disagreements[:50]]
+        jobs = [(d.case["scenario"], d.case.get("schedule"), 0) for d in disagreements[:50] if "scenario" in d.case]
         run_many(ctx, prop, jobs, res, want_follow=False)
         if res.violations:
             return res.violations
